@@ -84,18 +84,20 @@ theorem lat_conservation (g : K → K) (s0 t0 : K) (sr tr : List K)
     dot (diffs ((t0 :: tr).map g)) (matvec (normRows (boundsOverlap g (s0 :: sr) (t0 :: tr))) x)
       = dot (diffs ((s0 :: sr).map g)) x := by
   rw [← map_cells_eq_diffs, ← map_cells_eq_diffs]
-  have hrow := latOverlap_row_sum g s0 sr (t0 :: tr) hs ht (by
+  have hminT : ∀ v ∈ t0 :: tr, t0 ≤ v := by
     intro v hv
-    exact ⟨h0 ▸ (List.pairwise_cons.mp ht |>.1 v |> fun f => by
-      rcases List.mem_cons.mp hv with rfl | hv'
-      · exact le_refl _
-      · exact f hv'), h1 ▸ le_getLastD_of_pairwise t0 tr ht v hv⟩)
-  have hcol := latOverlap_col_sum g t0 tr (s0 :: sr) ht hs (by
-    intro v hv
-    refine ⟨h0 ▸ ?_, h1 ▸ le_getLastD_of_pairwise s0 sr hs v hv⟩
     rcases List.mem_cons.mp hv with rfl | hv'
     · exact le_refl _
-    · exact (List.pairwise_cons.mp hs).1 v hv')
+    · exact (List.pairwise_cons.mp ht).1 v hv'
+  have hminS : ∀ v ∈ s0 :: sr, s0 ≤ v := by
+    intro v hv
+    rcases List.mem_cons.mp hv with rfl | hv'
+    · exact le_refl _
+    · exact (List.pairwise_cons.mp hs).1 v hv'
+  have hrow := latOverlap_row_sum g s0 sr (t0 :: tr) hs ht (fun v hv =>
+    ⟨by rw [h0]; exact hminT v hv, by rw [h1]; exact le_getLastD_of_pairwise t0 tr ht v hv⟩)
+  have hcol := latOverlap_col_sum g t0 tr (s0 :: sr) ht hs (fun v hv =>
+    ⟨by rw [← h0]; exact hminS v hv, by rw [← h1]; exact le_getLastD_of_pairwise s0 sr hs v hv⟩)
   apply kernel_conservation (latOv g) (cells (t0 :: tr)) (cells (s0 :: sr))
     (fun t => g t.2 - g t.1) (fun s => g s.2 - g s.1) x _ hne hcol
   intro t htm
@@ -882,5 +884,91 @@ theorem value_is_weighted_mean (rtol atol : K) (htol : atol + rtol < 1) (skipna 
     intro h0
     rw [isClose_iff, h0, abs_one, mul_one, zero_sub, abs_neg, abs_one] at hc
     linarith
+
+/-! ## end to end -/
+
+/-- On a field without NaN, `__call__` returns `_mean(field)` in both `skipna` modes
+ (rows summing to one, complete rows, non-negative tolerances). -/
+theorem regridWith_no_nan (rtol atol : K) (hr : 0 ≤ rtol) (ha : 0 ≤ atol) (skipna : Bool)
+    (lw tw : List (List K)) (F : List (List K))
+    (hl : ∀ ra ∈ lw, ra.sum = 1 ∧ ra.length = F.length)
+    (ht : ∀ rc ∈ tw, rc.sum = 1 ∧ ∀ fb ∈ F, fb.length = rc.length) :
+    regridWith rtol atol skipna lw tw (F.map (·.map some))
+      = (mean2 lw tw F).map (·.map some) := by
+  rw [regridWith_cells, mean2_eq, List.map_map]
+  apply List.map_congr_left
+  intro ra hra
+  simp only [Function.comp_def, List.map_map]
+  apply List.map_congr_left
+  intro rc hrc
+  obtain ⟨h1, h2⟩ := hl ra hra
+  obtain ⟨h3, h4⟩ := ht rc hrc
+  have hmean : cellMean ra rc (F.map (·.map some)) = cellSum ra rc F := by
+    unfold cellMean
+    congr 1
+    rw [List.map_map]
+    conv_rhs => rw [← List.map_id F]
+    apply List.map_congr_left
+    intro fb _
+    simp only [Function.comp_def, List.map_map, fill0, id]
+    exact List.map_id' fb
+  have hnn : NoNull ra rc (F.map (·.map some)) := by
+    intro pb hpb pd hpd _
+    obtain ⟨fb, _, hfb⟩ := List.mem_map.mp (List.of_mem_zip hpb).2
+    have := (List.of_mem_zip hpd).2
+    rw [← hfb] at this
+    obtain ⟨v, _, hv⟩ := List.mem_map.mp this
+    rw [← hv]; simp
+  have hfrac : cellFrac ra rc (F.map (·.map some)) = 1 := by
+    rw [cellFrac_of_noNull ra rc _ (by simp [h2]) (by
+      intro fb hfb
+      obtain ⟨fb', hfb', rfl⟩ := List.mem_map.mp hfb
+      simp [h4 fb' hfb']) hnn, h1, h3, one_mul]
+  rw [hmean, hfrac]
+  unfold cellValue
+  cases skipna with
+  | true =>
+    have : isZero (1 : K) = false := by
+      rw [← Bool.not_eq_true, isZero_iff]; exact one_ne_zero
+    simp [this]
+  | false =>
+    have : isClose rtol atol (1 : K) 1 = true := by
+      rw [isClose_iff, sub_self, abs_zero, abs_one, mul_one]; linarith
+    simp [this]
+
+/-- **End to end.**  If the longitude weights conserve the width-weighted sum, the latitude weights
+ the area-weighted sum, and the field has no NaN, then the output of `__call__` (either `skipna`
+ mode) has no NaN and the same area-weighted integral as the input. -/
+theorem regridWith_conservation (rtol atol : K) (hr : 0 ≤ rtol) (ha : 0 ≤ atol) (skipna : Bool)
+    (lw tw : List (List K)) (wT wS aT aS : List K) (F : List (List K))
+    (hl : ∀ ra ∈ lw, ra.sum = 1 ∧ ra.length = F.length)
+    (ht : ∀ rc ∈ tw, rc.sum = 1 ∧ ∀ fb ∈ F, fb.length = rc.length)
+    (hcl : ∀ x : List K, dot wT (matvec lw x) = dot wS x)
+    (hct : ∀ y : List K, dot aT (matvec tw y) = dot aS y) :
+    ∃ out : List (List K),
+      regridWith rtol atol skipna lw tw (F.map (·.map some)) = out.map (·.map some) ∧
+      dot wT (out.map fun row => dot aT row) = dot wS (F.map fun fb => dot aS fb) :=
+  ⟨mean2 lw tw F, regridWith_no_nan rtol atol hr ha skipna lw tw F hl ht,
+    horizontal_conservation lw tw wT wS aT aS hcl hct F⟩
+
+/-- non-vacuity of `horizontal_conservation`: the weights the code computes for 4 → 5 longitudes
+ (period 12) and 3 → 2 latitudes (`g = id`, `hp = 1`) satisfy its two hypotheses -/
+example : ∃ lw tw : List (List ℚ),
+    lonWeights (fun x _ => x) 12 [1, 4, 7, 10] [1 / 2, 3, 5, 8, 11] = some lw ∧
+    latWeights id 1 [-1 / 2, 0, 3 / 4] [-1 / 4, 1 / 2] = some tw ∧
+    ∀ f : List (List ℚ),
+      dot ((lonCells (fun x _ => x) (12 : ℚ) [1 / 2, 3, 5, 8, 11]).map fun c => c.2 - c.1)
+          ((mean2 lw tw f).map fun row => dot (diffs ((latBounds 1 [-1 / 4, 1 / 2]).map id)) row)
+        = dot ((lonCells (fun x _ => x) (12 : ℚ) [1, 4, 7, 10]).map fun c => c.2 - c.1)
+          (f.map fun fb => dot (diffs ((latBounds 1 [-1 / 2, 0, 3 / 4]).map id)) fb) := by
+  obtain ⟨lw, h1, _, _, _, hcl⟩ := lonWeights_conservative_of_points (fun x _ => x)
+    (by norm_num : (0 : ℚ) < 12) (fun _ _ _ => rfl)
+    1 4 (1 / 2) 3 [7, 10] [5, 8, 11] 3 3 (by decide +kernel) (by decide +kernel) (by norm_num)
+    (by decide +kernel) (by norm_num) (by decide +kernel) (by decide +kernel) (by decide +kernel)
+    (by decide +kernel) (by decide +kernel) (by norm_num)
+  obtain ⟨tw, h2, _, hct⟩ := latWeights_conservative (id : ℚ → ℚ) one_pos strictMonoOn_id
+    (src := [-1 / 2, 0, 3 / 4]) (tgt := [-1 / 4, 1 / 2]) (by decide +kernel) (by decide +kernel)
+    (by decide +kernel) (by decide +kernel)
+  exact ⟨lw, tw, h1, h2, fun f => horizontal_conservation lw tw _ _ _ _ hcl hct f⟩
 
 end Dino.C16
